@@ -6,10 +6,11 @@ import Driver.Token
 import Driver.Pod
 import Driver.Disc
 import Driver.Errs
+import Driver.Seeds
 
 def dispatch (st : Unit) (line : String) : Unit × String :=
   let toks := (line.trimAscii.toString.splitOn " ").filter (· ≠ "")
-  match (Driver.Tok.handle toks <|> Driver.PodD.handle toks <|> Driver.DiscD.handle toks <|> Driver.ErrsD.handle toks) with
+  match (Driver.Tok.handle toks <|> Driver.PodD.handle toks <|> Driver.DiscD.handle toks <|> Driver.ErrsD.handle toks <|> Driver.SeedsD.handle toks) with
   | some s => (st, s)
   | none => (st, "bad-op")
 
